@@ -10,7 +10,7 @@
 (* function of the calls made, not of anything the implementation reported.                 *)
 (*                                                                                           *)
 (* Event (one JSON object per line):                                                        *)
-(*   op    "init" | "insert" | "get" | "remove" | "evict" | "clear" | "setwm" | "adjust"    *)
+(*   op    "init" | "insert" | "get" | "peek" | "remove" | "evict" | "clear" | "setwm" | "adjust"    *)
 (*         | "newgen" | "retire" | "dropgen"                                                *)
 (*   k, g  key id (1..nkeys) and generation id of the call (g = 0: none / untagged)         *)
 (*   res   "hit" | "miss" for get, otherwise "ok"/"done"                                    *)
@@ -57,7 +57,7 @@ TNext ==
   /\ rm' = IF Ev.op = "insert" THEN RmAfterInsert(Ev.k)
            ELSE IF Ev.op = "remove" THEN RmAfterRemove(Ev.k, Ev.g)
            ELSE rm
-  /\ last' = IF Ev.op = "get" THEN <<"get", Ev.k, Ev.g, 0, Ev.res, Ev.vg>>
+  /\ last' = IF Ev.op \in {"get", "peek"} THEN <<Ev.op, Ev.k, Ev.g, 0, Ev.res, Ev.vg>>
              ELSE IF Ev.op = "insert" THEN <<"insert", Ev.k, Ev.g, Ev.vlen, "done", 0>>
              ELSE <<Ev.op, Ev.k, Ev.g, 0, Ev.res, 0>>
 
